@@ -174,6 +174,9 @@ Clauses(RF) ==
  \cup (IF C.consume /\ ~sentence /\ Linear THEN ErrClauses("glr", glr, errNode, expected, TRUE) ELSE {})
  \cup (IF C.consume /\ ~sentence /\ Linear /\ C.built /\ Exact THEN ErrClauses("lr", lr, errNode, expected, FALSE) ELSE {})
  \cup (IF C.consume /\ ~sentence /\ C.built /\ ~Exact /\ lr.kind \notin {"syntax", "disamb", "tree"} THEN {"C10:lr:other-exception"} ELSE {})
+ \* trees built by parsers constructed with debug=True are trees like any other: the same position and losslessness clauses
+ \cup (IF C.hasdbg /\ C.lrdbg.kind = "tree" /\ Struct(C.lrdbg.tree) = "ok" /\ Positions(C.lrdbg.tree) # "ok" THEN {"C08:lr(debug=True):" \o Positions(C.lrdbg.tree)} ELSE {})
+ \cup UNION { IF C.hasdbg /\ Struct(C.glrdbg.trees[i]) = "ok" /\ Positions(C.glrdbg.trees[i]) # "ok" THEN {"C08:glr(debug=True):" \o Positions(C.glrdbg.trees[i])} ELSE {} : i \in DOMAIN C.glrdbg.trees }
  \* a DisambiguationError is located at the ambiguous token: a lattice node at which at least two terminals match (any input, any table)
  \cup (IF C.built /\ lr.kind = "disamb" /\ ~(lr.exc.pos \in Nodes /\ Cardinality(MatchingAt(lr.exc.pos)) >= 2)
        THEN {"C10:lr:disambiguation-error-not-located-at-an-ambiguous-token"} ELSE {})
